@@ -372,6 +372,15 @@ def observe_run(C, reads1, reads2, workdir):
         sampler.install(ads, ads2)
         return ads, ads2
     cli.adapters_from_args = afa
+    from harness import stages
+    recorder = stages.Recorder()
+    orig_mp = cli.make_pipeline_from_args
+
+    def mp(*a, **kw):
+        pl = orig_mp(*a, **kw)
+        recorder.instrument(pl)
+        return pl
+    cli.make_pipeline_from_args = mp
     try:
         # the Locate oracle is always sampled in a one-core run (match_to is a pure function of the
         # adapter and the sequence); with cores > 1 the observed run is a second, unwrapped execution
@@ -381,6 +390,7 @@ def observe_run(C, reads1, reads2, workdir):
         res = run_cli(build_argv(serial_C), inputs, workdir)
     finally:
         cli.adapters_from_args = orig_afa
+        cli.make_pipeline_from_args = orig_mp
     if C.get("cores", 1) > 1 and res.exit == 0 and res.exception is None:
         from harness import vmp
         import random as _r
@@ -539,7 +549,8 @@ def observe_run(C, reads1, reads2, workdir):
                   pos2=[f2["fname"].replace("2", "#", 1), f2["pos"]] if f2 else ["", -1],
                   demux1=codes(f1["n1"]) if f1 and f1["n1"] and f1["n1"] != "unknown" else [],
                   demux2=codes(f1["n2"]) if f1 and f1["n2"] and f1["n2"] != "unknown" else [],
-                  rows=rows_by_read.get(k, []), rest=aux_by_read["rest"].get(k, []), wild=aux_by_read["wild"].get(k, []))
+                  rows=rows_by_read.get(k, []), rest=aux_by_read["rest"].get(k, []), wild=aux_by_read["wild"].get(k, []),
+                  chain=recorder.chains.get(k, []) if recorder.ok else [])
         # table rows related to this read: searched sequences that are substrings of the read or its reverse complement
         keys = [r1[1].upper(), revcomp(r1[1]).upper()] + ([r2[1].upper(), revcomp(r2[1]).upper()] if paired else [])
         table = [row for (i, s), row in sampler.calls.items() if any(s.upper() in kk for kk in keys)]
@@ -669,6 +680,7 @@ def text_report_ok(text, j):
 # ---------------------------------------------------------------- validation with the MISS loop
 RE_MISS = re.compile(r'<<"MISS", (\d+), (\d+), (\d+), <<([\d, ]*)>>>>')
 RE_VIOL = re.compile(r'<<"VIOL", (\d+), "([^"]*)"(?:, (\d+))?>>')
+RE_BLAME = re.compile(r'<<"BLAME", (\d+), (\d+), "([a-z]+)">>')
 
 
 def validate_runs(ctx, events, samplers, shards=8, max_rounds=4):
@@ -700,6 +712,7 @@ def validate_runs(ctx, events, samplers, shards=8, max_rounds=4):
             outs = list(ex.map(run, range(n)))
         missing = {}
         viols = {}
+        blames = {}
         for r in outs:
             ctx.states += r["states"]
             ctx.transitions += r["transitions"]
@@ -708,6 +721,8 @@ def validate_runs(ctx, events, samplers, shards=8, max_rounds=4):
                 missing.setdefault(int(eid), set()).add((int(k), int(ad), s))
             for eid, clause, k in RE_VIOL.findall(r["nout"]):
                 viols.setdefault(int(eid), set()).add((clause, int(k) if k else None))
+            for eid, k, lab in RE_BLAME.findall(r["nout"]):
+                blames.setdefault(int(eid), {}).setdefault(int(k), set()).add(lab)
         nxt = []
         for e in pending:
             if e["id"] in missing:
@@ -717,6 +732,7 @@ def validate_runs(ctx, events, samplers, shards=8, max_rounds=4):
                 nxt.append(e)
             else:
                 result[e["id"]] = sorted(viols.get(e["id"], []), key=str)
+                e["_blame"] = {k: sorted(v) for k, v in blames.get(e["id"], {}).items()}
         pending = nxt
     if pending:
         raise RuntimeError(f"Locate table still incomplete after {max_rounds} rounds for runs {[e['id'] for e in pending]}")
